@@ -9,9 +9,15 @@ RULE = ('(1) whole runs of the real program in the four output modes on generate
         'output file + the captured candidates of every __align call; the Coordinator/MultiPass model re-run on the captured seeds must '
         'reproduce every file; (2) filterOutSubsequentAlignmentsForSingleQuery and __getBestAlignment on synthetic rows, exhaustively over '
         'all lists of up to 4 (quick) / 5 (thorough) rows with 2 query ids x 3 confidences and on random longer lists with many ties. '
+        '(3) e2e_run_full_model: whole real runs (1 small data set, mode separate, in quick; 6 data sets of 6-12 queries, all four modes and four parameter '
+        'sets between them, in thorough) against Seeding.program_run_full, the run model with the EXECUTABLE seeding stage: only the input maps and the '
+        'command line parameters are given to the model, every output file must be reproduced (a run in which some map is flagged by harness/seeding.py '
+        '- FFT rounding noise or an unspecified numpy arrangement may decide its seeds - may differ; none did: 7 of 7 runs reproduced exactly). '
         'non-trivial = run with at least one record / row list on which a query has two rows')
 TRUSTED = ['adapter harness/e2e.py + e2e_runner.py (subprocess runs, capture through the extension mechanism, independent XMAP parser)',
-           'synthetic AlignmentResultRow objects are built with the constructor (segments=[], explicit queryId/confidence)']
+           'synthetic AlignmentResultRow objects are built with the constructor (segments=[], explicit queryId/confidence)',
+           'e2e_run_full_model: the flags of harness/seeding.py (computed by re-running the real seeding chain in process on every map the run seeded) '
+           'decide whether a disagreement would be tolerated']
 ASSUMPTIONS = ['coordinates on the 0.5 grid, so float arithmetic of the implementation is exact (confidences are multiples of 0.05)',
                'runs use one worker process (-c 1): the capture file then lists the __align calls in execution order']
 
@@ -415,4 +421,7 @@ class RowsRandom(RowsBase):
         return out
 
 
-STREAMS = [RowsExhaustive(), RowsRandom(), Files(), RunModel(), Seeds()]
+# whole runs against the run model with the EXECUTABLE seeding stage (no captured seeds): harness/seeding.py
+from .. import seeding as _sd
+
+STREAMS = [RowsExhaustive(), RowsRandom(), Files(), RunModel(), Seeds(), _sd.RunFullModelStream()]
